@@ -1325,6 +1325,73 @@ fn seq_skip<const H: usize>(ops: &[SeqOp]) -> (Vec<String>, Vec<String>, u64) {
     (obs, fails, dups)
 }
 
+/// The same sequential program on a list of SIGNED keys: key k of the program is stored as
+/// `k - 2^63` (an order-preserving bijection u64 -> i64), so about half of the keys lie below
+/// `i64::default()`, the key the head node carries.  What the iterator may do at the front of the
+/// list (prev() from before the first element stays there, whatever lies below the head's key) is
+/// only visible with such keys.  Observations are mapped back, so the request, the model's answer
+/// and the reference are those of the unsigned program.
+fn seq_skip_signed<const H: usize>(ops: &[SeqOp]) -> (Vec<String>, Vec<String>, u64) {
+    let enc = |k: u64| (k ^ (1u64 << 63)) as i64;
+    let dec = |k: i64| (k as u64) ^ (1u64 << 63);
+    let sl: SkipList<i64, u64, H> = SkipList::default();
+    let mut it = sl.iter();
+    let (ops_u, _) = (ops, ());
+    // reference and expected answers: reuse the unsigned reference by running the unsigned list too
+    let (want_obs, _, dups) = seq_skip::<H>(ops_u);
+    let (mut obs, mut fails) = (vec![], vec![]);
+    for (i, op) in ops.iter().enumerate() {
+        let got = match op {
+            SeqOp::Ins(k, h) => {
+                // the unsigned run above consumed its forced heights; force the same ones here
+                let dup = want_obs[i] == "panic";
+                if !dup {
+                    sv::force_heights(&[*h]);
+                }
+                let r = guarded(AssertUnwindSafe(|| sl.insert(enc(*k), *k)));
+                if r.is_ok() { "-".to_string() } else { "panic".to_string() }
+            }
+            SeqOp::R(rop) => {
+                let r = guarded(AssertUnwindSafe(|| {
+                    match rop {
+                        ROp::Seek(k) => it.seek(&enc(*k)),
+                        ROp::Contains(k) => return if sl.contains(&enc(*k)) { "T".to_string() } else { "F".to_string() },
+                        ROp::Next => it.next(),
+                        ROp::Prev => it.prev(),
+                        ROp::First => it.seek_to_first(),
+                        ROp::Last => it.seek_to_last(),
+                    }
+                    if it.is_valid() {
+                        format!("{}", dec(*it.key()))
+                    } else {
+                        "-".to_string()
+                    }
+                }));
+                r.unwrap_or_else(|_| "panic".to_string())
+            }
+            SeqOp::Dump => {
+                let levels: Vec<Vec<u64>> = sl.verif_levels().iter().map(|l| l.iter().map(|k| dec(**k)).collect()).collect();
+                format!("lv={}", render_levels(&levels))
+            }
+        };
+        if got != want_obs[i] {
+            fails.push(format!("signed keys, op {:?}: got {} want {}", op, got, want_obs[i]));
+        }
+        obs.push(got);
+    }
+    (obs, fails, dups)
+}
+
+fn seq_dispatch_signed(h: usize, ops: &[SeqOp]) -> (Vec<String>, Vec<String>, u64) {
+    match h {
+        1 => seq_skip_signed::<1>(ops),
+        2 => seq_skip_signed::<2>(ops),
+        3 => seq_skip_signed::<3>(ops),
+        4 => seq_skip_signed::<4>(ops),
+        _ => seq_skip_signed::<12>(ops),
+    }
+}
+
 fn seq_dispatch(h: usize, ops: &[SeqOp]) -> (Vec<String>, Vec<String>, u64) {
     match h {
         1 => seq_skip::<1>(ops),
@@ -1891,7 +1958,14 @@ pub fn run(args: &Args) {
         let mut rng = Rng::for_case(args.seed, 1, i);
         let (h, ops, name) = gen_seq(&mut rng);
         let req = format!("skip seq {} {}", h, ops.iter().map(seq_tok).collect::<Vec<_>>().join(" "));
-        let (obs, fails, dups) = seq_dispatch(h, &ops);
+        let (obs, mut fails, dups) = seq_dispatch(h, &ops);
+        // the same program on signed keys (observations mapped back must be identical)
+        let (obs_signed, fails_signed, _) = seq_dispatch_signed(h, &ops);
+        if fails.is_empty() && obs_signed != obs {
+            fails.push("signed-key list answers differ from the unsigned one".to_string());
+        }
+        fails.extend(fails_signed);
+        rec.count("seq.skip.signed_twin_runs");
         rec.count("seq.skip");
         rec.count(&format!("seq.skip.keys.{}", name));
         rec.count(&format!("seq.skip.max_height{}", h));
